@@ -39,4 +39,4 @@ def run(shard):
         if D.nontrivial_code(code):
             H.distinct(H.code_key(code))
 
-    D.drive(shard, "C02", on_decoded, "C02.instructions")
+    D.drive(shard, "C02", on_decoded, "C02.instructions", variants=3)
